@@ -1,5 +1,6 @@
 import SwcVerif.Props.C19Gen
 import SwcVerif.Refine.PopFront
+import SwcVerif.Refine.SliceSpec
 /-! # C19, the front end, tied to the source by the translator
 
 `Gen.Algo.pop_* / nestl_* / pops_* / popsl_*` (Gen/AlgoPopFront.lean) are regenerated from `swcgeom/core/population.py` on every run:
@@ -194,26 +195,63 @@ def sliceSpec (n : Nat) (a b c : Option Int) : Option (List Int) :=
     let hi : Int := match b with | none => -1 | some b => max (-1) (min ((n : Int) - 1) (norm b))
     some (((Py.range n).filter fun i => decide (hi < i ∧ i ≤ lo ∧ (lo - i) % (-step) = 0)).reverse)
 
-/-- **`Population[a:b:c]` as translated (PARTIAL)**: for every population state and every slice, the result is the `NestTrees` over the
-population's own container with the index list `range(*slice(a, b, c).indices(len(self)))` (`Py.PF.sliceIndices` is CPython's clamping
-algorithm, `Py.PF.range3` the arithmetic progression), and `[k]` on it is the CONTAINER's `__getitem__` on the k-th entry (negative `k`
-wrap, IndexError outside) — so every read goes through the lazy cache (`generated_front_load_at_most_once`).
-MISSING for the full statement "= the sub-sequence Python's slice semantics designate": that this index list equals the independent
-set-builder `sliceSpec` is kernel-checked only on the box `n ≤ 4`, bounds in `None, -5 .. 5`, steps in `None, ±1, ±2, ±3` (the example
-below), not for every `n`; the correspondence compares it with CPython's `slice.indices` on every run. -/
-theorem generated_pop_slice_partial {g : LazyLoadingTrees} {l : Lazy} (h : LRep g l) (root : String) (s : Py.PF.Slice) :
-    pop_getitem_slice ⟨g, root⟩ s = ((Py.PF.sliceIndices s (l.len : Int)).bind Py.PF.range3).map (fun idx => ⟨g, idx⟩) ∧
+theorem clamp_pos (x n : Int) (hn : 0 ≤ n) :
+    Py.PF.sliceClamp x n 0 n = max 0 (min n (if x < 0 then x + n else x)) := by
+  unfold Py.PF.sliceClamp; split_ifs <;> omega
+
+theorem clamp_neg (x n : Int) (hn : 0 ≤ n) :
+    Py.PF.sliceClamp x n (-1) (n - 1) = max (-1) (min (n - 1) (if x < 0 then x + n else x)) := by
+  unfold Py.PF.sliceClamp; split_ifs <;> omega
+
+/-- **`range(*slice(a, b, c).indices(n))` is the designated sub-sequence, for EVERY length, bounds and step**: CPython's clamping
+algorithm followed by the arithmetic progression equals the independent set-builder `sliceSpec` (positions between the normalised
+bounds on the step lattice, ascending / descending); step 0 raises on both sides.  (`RefineSlice.up_eq` / `down_eq`: two strictly
+monotone lists with the same members are equal.) -/
+theorem slice_indices_eq_spec (n : Nat) (a b c : Option Int) :
+    (Py.PF.sliceIndices (a, b, c) (n : Int)).bind Py.PF.range3 = sliceSpec n a b c := by
+  open RefineSlice in
+  have hn0 : (0 : Int) ≤ n := by omega
+  simp only [Py.PF.sliceIndices, sliceSpec]
+  by_cases h0 : c.getD 1 = 0
+  · simp [h0]
+  · have hn : ¬ ((n : Int) < 0) := by omega
+    simp only [h0, hn, or_self, if_false, Option.bind_some, Py.PF.range3]
+    by_cases hp : c.getD 1 > 0
+    · have hneg : ¬ (c.getD 1 < 0) := by omega
+      simp only [hp, hneg, if_true, if_false]
+      congr 1
+      cases a <;> cases b <;> simp only [clamp_pos _ _ hn0] <;> exact RefineSlice.up_eq _ _ _ _ hp (by omega) (by omega)
+    · have hneg : c.getD 1 < 0 := by omega
+      simp only [hp, hneg, if_true, if_false]
+      congr 1
+      have e : ∀ (k : Nat) (lo : Int), lo + (k : Int) * c.getD 1 = lo + (k : Int) * (-(-(c.getD 1))) := by intro k lo; ring
+      cases a <;> cases b <;> simp only [clamp_neg _ _ hn0, e] <;>
+        exact RefineSlice.down_eq _ _ _ _ (by omega) (by omega) (by omega)
+
+/-- **`Population[a:b:c]` as translated**: for every population state and every slice, the result is the `NestTrees` over the
+population's own container whose index list is THE SUB-SEQUENCE OF `0 .. len-1` THE SLICE DESIGNATES (`sliceSpec`, written without
+`slice.indices`; ValueError for step 0), and `[k]` on it is the CONTAINER's `__getitem__` on the k-th entry (negative `k` wrap,
+IndexError outside) — so every read goes through the lazy cache (`generated_front_load_at_most_once`). -/
+theorem generated_pop_slice {g : LazyLoadingTrees} {l : Lazy} (h : LRep g l) (root : String) (s : Py.PF.Slice) :
+    pop_getitem_slice ⟨g, root⟩ s = (sliceSpec l.len s.1 s.2.1 s.2.2).map (fun idx => ⟨g, idx⟩) ∧
     ∀ idx key, (match Py.idx idx key with
        | none => nestl_getitem readLog ⟨g, idx⟩ key (castL l.log) = none
        | some j => match l.get j with
          | none => nestl_getitem readLog ⟨g, idx⟩ key (castL l.log) = none
-         | some (l', k) => ∃ g', nestl_getitem readLog ⟨g, idx⟩ key (castL l.log) = some (⟨g', idx⟩, castL l'.log, some (k : Int)) ∧ LRep g' l') :=
-  ⟨pop_getitem_slice_refines h root s, fun idx key => nestl_getitem_refines h idx key⟩
+         | some (l', k) => ∃ g', nestl_getitem readLog ⟨g, idx⟩ key (castL l.log) = some (⟨g', idx⟩, castL l'.log, some (k : Int)) ∧ LRep g' l') := by
+  refine ⟨?_, fun idx key => nestl_getitem_refines h idx key⟩
+  rw [pop_getitem_slice_refines h root s]
+  obtain ⟨a, b, c⟩ := s
+  rw [slice_indices_eq_spec]
+
+/-- non-vacuity (kernel-evaluated): `range(7)[5:0:-2]` and `range(7)[-100:4:3]` -/
+example : sliceSpec 7 (some 5) (some 0) (some (-2)) = some [5, 3, 1] ∧ sliceSpec 7 (some (-100)) (some 4) (some 3) = some [0, 3] := by
+  decide +kernel
 
 def boxOpts : List (Option Int) := none :: ((List.range 11).map fun (k : Nat) => some ((k : Int) - 5))
 def boxSteps : List (Option Int) := [none, some 1, some 2, some 3, some (-1), some (-2), some (-3), some 0]
 
-/-- the index list of a slice is the designated sub-sequence, on a box (kernel-evaluated; 5 · 12 · 12 · 8 cases, step 0 included) -/
+/-- the same equality evaluated by the kernel on a box (a TEST of the two definitions, kept from before the theorem was proved) -/
 example : ((List.range 5).all fun n => boxOpts.all fun a => boxOpts.all fun b => boxSteps.all fun c =>
     decide ((Py.PF.sliceIndices (a, b, c) (n : Int)).bind Py.PF.range3 = sliceSpec n a b c)) = true := by decide +kernel
 
